@@ -689,3 +689,56 @@ func H_C02_multi_k() {
 	}
 	vCover("ran")
 }
+
+func init() { vHarnesses["H_C02_builder_reuse"] = H_C02_builder_reuse }
+
+// one search object executed several times while the index changes underneath it, and a two-query batch whose first
+// query finds fewer than k candidates: Execute must not carry anything (a clamped k, ranked clusters, tables) from one
+// call or one query into the next.  5 kinds, concrete stored vectors, symbolic query coordinate.
+func H_C02_builder_reuse() {
+	kind := vChoose("kind", 5)
+	vPQM, vPQNbits, vPQConcreteCB = 2, 1, true
+	u := vMakeIndexC(kind, L2Squared, 2, 2, false)
+	q := []float32{vF32("qx"), 0.5}
+	vAssume(vAnd(q[0] >= -8, q[0] <= 8))
+	k := 2 + vChoose("k", 2)
+	vAddBoth(u.idx, u.m, 40, []float32{0.5, -1.25})
+	s := u.idx.NewSearch().WithQuery(q).WithK(k).WithNProbes(0).WithEfSearch(16)
+	check := func(label string) {
+		res, err := s.Execute()
+		vAssert(err == nil, label+"-search-ok")
+		vTag("at=" + label)
+		E := u.m.eligible(q, 0, nil)
+		if kind == vKHNSW {
+			vCheckSound(res, E, k)
+			if len(E) > 0 {
+				vAssert(len(res) > 0, label+"-nonempty")
+			}
+		} else {
+			vCheckExact(res, E, k)
+		}
+	}
+	check("one-vector-fewer-than-k")
+	vAddBoth(u.idx, u.m, 37, []float32{1.5, 2})
+	vAddBoth(u.idx, u.m, 34, []float32{-2.5, 0.75})
+	vAddBoth(u.idx, u.m, 31, []float32{3.5, -0.25})
+	check("after-three-more-adds")
+	vRemoveBoth(u.idx, u.m, 37)
+	check("after-a-removal")
+	if vChoose("flush", 2) == 1 {
+		vFlushBoth(u.idx, u.m)
+		check("after-flush")
+	}
+	if kind != vKHNSW {
+		// a batch whose first query has no candidate inside the threshold and whose second has three
+		far := []float32{60, 60}
+		near := []float32{0.5, 0.5}
+		const th = 40
+		rb, eb := u.idx.NewSearch().WithQuery(far, near).WithK(2).WithThreshold(th).WithNProbes(0).Execute()
+		vAssert(eb == nil, "batch-search-ok")
+		E := u.m.eligible(near, th, nil)
+		vAssert(len(u.m.eligible(far, th, nil)) == 0 && len(E) >= 2, "harness-shape")
+		vCheckExact(rb, E, 2)
+	}
+	vCover("ran")
+}
